@@ -323,6 +323,7 @@ def build(scn):
     stages = sorted({meta[n]['stage'] for n in meta if meta[n]['stage'] >= scn.get('start', 0)})
     ex = DOWHILE_EXTRAS.get(scn['wf'], {})
     return Scenario(doc, script=script, name=scn['wf'], extra_files=ex.get('extra_files'), exit_files=ex.get('exit_files'),
+                    outmode=scn.get('outmode'),
                     stages=(stages if scn.get('start') else None)), meta, mscript, attrs, stages
 
 
